@@ -7,6 +7,7 @@ from typing import Any, ClassVar
 
 from tree_sitter import Node
 
+from nix_manipulator.expressions.points import point_row
 from nix_manipulator.expressions.comment import Comment
 from nix_manipulator.expressions.expression import NixExpression, TypedExpression
 from nix_manipulator.expressions.trivia import (
@@ -67,7 +68,7 @@ class Parenthesis(TypedExpression):
             """Allow inline comments only when they stay on the same line."""
             return (
                 prev is not None
-                and comment_node.start_point.row == prev.end_point.row
+                and point_row(comment_node.start_point) == point_row(prev.end_point)
                 and bool(items)
             )
 
